@@ -1,9 +1,992 @@
 package vwal
 
+// Layer 3 of C14: the script runs in a child process under strace. Three uses:
+//  (a) reference run: full syscall trace (WAL paths + progress file) -> ordering
+//      checker (watermark durable before any log file is unlinked) and the list
+//      of state-changing WAL syscalls from which kill targets are chosen;
+//  (b) kill runs: SIGKILL before the N-th write/openat/renameat/unlinkat/... on a
+//      WAL path; the directory left behind is the crash image;
+//  (c) fault runs: EIO / ENOSPC / EACCES injected into WAL syscalls; the child
+//      keeps going, snapshots the directory whenever a call fails.
+
 import (
+	"bufio"
+	"context"
+	"encoding/json"
+	"fmt"
+	"math/rand/v2"
+	"os"
+	"os/exec"
+	"path/filepath"
+	"regexp"
+	"runtime"
+	"sort"
+	"strconv"
+	"strings"
+	"sync"
 	"testing"
+	"time"
 
 	"github.com/NethermindEth/juno/verifh/lib"
 )
 
-func straceLayer(r *lib.Run, t *testing.T) {}
+// ---------------------------------------------------------------- trace parsing
+
+type sysEv struct {
+	Pid      int
+	Name     string
+	Args     string
+	Ret      string // "" while unfinished, "?" if the process died inside
+	Injected bool
+	Done     bool
+}
+
+var (
+	reLine    = regexp.MustCompile(`^(\d+)\s+(\w+)\((.*)$`)
+	reResumed = regexp.MustCompile(`^(\d+)\s+<\.\.\. (\w+) resumed>(.*)$`)
+	reRet     = regexp.MustCompile(`\)\s+= (-?\d+|\?|0x[0-9a-f]+)(.*)$`)
+	reFdPath  = regexp.MustCompile(`^\d+<([^>]*)>`)
+	reQuoted  = regexp.MustCompile(`"((?:[^"\\]|\\.)*)"`)
+)
+
+// parseTrace returns the syscalls in completion order; syscalls that never
+// completed (the process was killed inside / before them) come last with Done=false.
+func parseTrace(path string) ([]sysEv, error) {
+	f, err := os.Open(path)
+	if err != nil {
+		return nil, err
+	}
+	defer f.Close()
+	var out []sysEv
+	pending := map[int]*sysEv{}
+	finish := func(ev *sysEv, rest string) {
+		m := reRet.FindStringSubmatchIndex(rest)
+		if m == nil {
+			ev.Args += rest
+			return
+		}
+		ev.Args += rest[:m[0]]
+		ev.Ret = rest[m[2]:m[3]]
+		ev.Injected = strings.Contains(rest[m[4]:m[5]], "INJECTED")
+		ev.Done = ev.Ret != "?"
+	}
+	sc := bufio.NewScanner(f)
+	sc.Buffer(make([]byte, 1<<20), 1<<24)
+	for sc.Scan() {
+		line := sc.Text()
+		if m := reResumed.FindStringSubmatch(line); m != nil {
+			pid, _ := strconv.Atoi(m[1])
+			if ev := pending[pid]; ev != nil {
+				delete(pending, pid)
+				finish(ev, m[3])
+				out = append(out, *ev)
+			}
+			continue
+		}
+		m := reLine.FindStringSubmatch(line)
+		if m == nil {
+			continue
+		}
+		pid, _ := strconv.Atoi(m[1])
+		ev := &sysEv{Pid: pid, Name: m[2]}
+		rest := m[3]
+		if strings.HasSuffix(rest, "<unfinished ...>") {
+			ev.Args = strings.TrimSuffix(rest, "<unfinished ...>")
+			pending[pid] = ev
+			continue
+		}
+		finish(ev, rest)
+		if ev.Ret == "" || ev.Ret == "?" {
+			pending[pid] = ev
+			continue
+		}
+		out = append(out, *ev)
+	}
+	for _, ev := range pending {
+		out = append(out, *ev)
+	}
+	return out, sc.Err()
+}
+
+func (e sysEv) fdPath() string {
+	if m := reFdPath.FindStringSubmatch(e.Args); m != nil {
+		return m[1]
+	}
+	return ""
+}
+
+func cUnescape(s string) string {
+	var b []byte
+	for i := 0; i < len(s); i++ {
+		c := s[i]
+		if c != '\\' || i+1 >= len(s) {
+			b = append(b, c)
+			continue
+		}
+		i++
+		switch s[i] {
+		case 'n':
+			b = append(b, '\n')
+		case 't':
+			b = append(b, '\t')
+		case 'r':
+			b = append(b, '\r')
+		case 'v':
+			b = append(b, '\v')
+		case 'f':
+			b = append(b, '\f')
+		case 'x':
+			j := i + 1
+			for j < len(s) && j < i+3 && strings.IndexByte("0123456789abcdefABCDEF", s[j]) >= 0 {
+				j++
+			}
+			v, _ := strconv.ParseUint(s[i+1:j], 16, 8)
+			b = append(b, byte(v))
+			i = j - 1
+		case '0', '1', '2', '3', '4', '5', '6', '7':
+			j := i
+			for j < len(s) && j < i+3 && s[j] >= '0' && s[j] <= '7' {
+				j++
+			}
+			v, _ := strconv.ParseUint(s[i:j], 8, 16)
+			b = append(b, byte(v))
+			i = j - 1
+		default:
+			b = append(b, s[i])
+		}
+	}
+	return string(b)
+}
+
+func (e sysEv) strings() []string {
+	var out []string
+	for _, m := range reQuoted.FindAllStringSubmatch(e.Args, -1) {
+		out = append(out, cUnescape(m[1]))
+	}
+	return out
+}
+
+// target path of the syscall (fd path for fd calls, first path string otherwise).
+func (e sysEv) path() string {
+	switch e.Name {
+	case "write", "pwrite64", "fsync", "fdatasync", "ftruncate", "sync_file_range", "close", "read", "pread64", "fstat", "fallocate":
+		return e.fdPath()
+	}
+	if s := e.strings(); len(s) > 0 {
+		return s[0]
+	}
+	return e.fdPath()
+}
+
+// mutating: the call changes what a later reader of the directory can see
+// (or, for the sync family, what is durable).
+func (e sysEv) mutating() bool {
+	switch e.Name {
+	case "write", "pwrite64", "fsync", "fdatasync", "ftruncate", "renameat", "renameat2", "rename", "unlinkat", "unlink", "mkdirat", "fallocate":
+		return true
+	case "openat":
+		return strings.Contains(e.Args, "O_CREAT") || strings.Contains(e.Args, "O_TRUNC")
+	}
+	return false
+}
+
+// ---------------------------------------------------------------- running the child
+
+type childResult struct {
+	dir      string // scratch root (caller removes)
+	base     string
+	trace    []sysEv
+	progress []progLine
+	ended    bool // child wrote END
+	timedOut bool
+}
+
+type progLine struct {
+	Kind   string // C, R, S
+	I      int
+	Op     string
+	Status string // ok / err
+	View   string
+	Msg    string
+}
+
+func parseProgress(path string) ([]progLine, bool) {
+	b, err := os.ReadFile(path)
+	if err != nil {
+		return nil, false
+	}
+	var out []progLine
+	ended := false
+	for _, l := range strings.Split(string(b), "\n") {
+		f := strings.SplitN(l, " ", 5)
+		switch {
+		case l == "END":
+			ended = true
+		case len(f) >= 3 && (f[0] == "C" || f[0] == "S"):
+			i, _ := strconv.Atoi(f[1])
+			out = append(out, progLine{Kind: f[0], I: i, Op: f[2]})
+		case len(f) >= 4 && f[0] == "R":
+			i, _ := strconv.Atoi(f[1])
+			p := progLine{Kind: "R", I: i, Status: f[2], View: f[3]}
+			if len(f) == 5 {
+				p.Msg = f[4]
+			}
+			out = append(out, p)
+		}
+	}
+	return out, ended
+}
+
+func selfBinary() string {
+	if s := os.Getenv("VERIF_SELF"); s != "" {
+		return s
+	}
+	s, _ := os.Executable()
+	return s
+}
+
+// runChild executes the script in a child under strace. inject: strace -e inject
+// expressions; traceProgress adds the progress file to the traced paths (only for
+// runs without injection). snaps asks the child for a directory copy on every failed call.
+func runChild(ops []op, inject []string, traceProgress, views, snaps bool) (*childResult, error) {
+	root, err := os.MkdirTemp("", "c14k")
+	if err != nil {
+		return nil, err
+	}
+	res := &childResult{dir: root, base: filepath.Join(root, "base")}
+	if err := os.MkdirAll(res.base, 0o755); err != nil {
+		return res, err
+	}
+	job := childJob{Base: res.base, Progress: filepath.Join(root, "progress"), Views: views, Ops: ops}
+	if snaps {
+		job.SnapDir = filepath.Join(root, "snaps")
+		os.MkdirAll(job.SnapDir, 0o755)
+	}
+	jb, _ := json.Marshal(job)
+	jp := filepath.Join(root, "job.json")
+	if err := os.WriteFile(jp, jb, 0o644); err != nil {
+		return res, err
+	}
+	wd := walDirOf(res.base)
+	nlogs := 8
+	for _, o := range ops {
+		if o.Kind == opOpen {
+			nlogs++
+		}
+	}
+	nlogs += len(ops) / 200 // rotations by cleanup and by failed appends
+	if len(inject) > 0 {
+		nlogs += 40
+	}
+	tracePath := filepath.Join(root, "trace")
+	args := []string{"-f", "-y", "-s", "256", "--signal=none", "-o", tracePath, "-P", wd, "-P", filepath.Join(wd, wmName), "-P", filepath.Join(wd, wmTmpName)}
+	for i := 1; i <= nlogs; i++ {
+		args = append(args, "-P", filepath.Join(wd, logName(i)))
+	}
+	if traceProgress {
+		args = append(args, "-P", job.Progress)
+	}
+	for _, in := range inject {
+		args = append(args, "-e", "inject="+in)
+	}
+	args = append(args, selfBinary(), "-test.run", "^TestC14Child$", "-test.timeout", "0")
+	ctx, cancel := context.WithTimeout(context.Background(), 5*time.Minute) // watchdog only (normal: ~1 s)
+	defer cancel()
+	cmd := exec.CommandContext(ctx, "strace", args...)
+	cmd.Env = append(os.Environ(), "VERIF_C14_JOB="+jp)
+	cmd.Dir = root
+	out, runErr := cmd.CombinedOutput()
+	if ctx.Err() != nil {
+		res.timedOut = true
+		return res, nil
+	}
+	res.trace, err = parseTrace(tracePath)
+	if err != nil {
+		return res, fmt.Errorf("strace produced no trace (%v; run error %v; output %s)", err, runErr, string(out))
+	}
+	res.progress, res.ended = parseProgress(job.Progress)
+	return res, nil
+}
+
+func parallel(n int, fn func(i int)) {
+	var wg sync.WaitGroup
+	ch := make(chan int)
+	for w := 0; w < runtime.GOMAXPROCS(0); w++ {
+		wg.Add(1)
+		go func() {
+			defer wg.Done()
+			for i := range ch {
+				fn(i)
+			}
+		}()
+	}
+	for i := 0; i < n; i++ {
+		ch <- i
+	}
+	close(ch)
+	wg.Wait()
+}
+
+// ---------------------------------------------------------------- ordering checker
+
+type orderWitness struct {
+	Script string   `json:"script"`
+	Event  string   `json:"event"`
+	Detail string   `json:"detail"`
+	Tail   []string `json:"trace_before"`
+}
+
+// checkOrdering replays the reference trace: which entry heights went into which
+// log file (from the call brackets in the traced progress file and the model),
+// which watermark value is durable (tmp written+fsynced, renamed, directory
+// fsynced), and demands at every unlink of a log file that the durable watermark
+// covers every height indexed in that file.
+func checkOrdering(r *lib.Run, caseIdx int, sc script, res *childResult) {
+	wd := walDirOf(res.base)
+	progPath := filepath.Join(res.dir, "progress")
+	// heights added per flushing op, from the model
+	added := map[int][]uint64{}
+	m := &model{}
+	for i, o := range sc.Ops {
+		if o.Kind == opFlush || o.Kind == opClose {
+			m.pending = append([]rec(nil), m.pending...)
+			added[i] = m.commit()
+		} else {
+			m.apply(o)
+		}
+	}
+	fileMax := map[string]uint64{}
+	fileHas := map[string]bool{}
+	curOp := -2
+	var tmpContent []byte
+	tmpSynced := false
+	renamedW, haveRenamed, dirSyncedAfterRename := uint64(0), false, false
+	durableW, haveDurable := uint64(0), false
+	var recent []string
+	fail := func(class, ev, detail string) {
+		r.Violation("order:"+class, caseIdx, fmt.Sprintf("%s script, %s: %s", sc.Profile, ev, detail),
+			orderWitness{Script: scriptString(sc.Ops, 60), Event: ev, Detail: detail, Tail: append([]string(nil), recent...)})
+	}
+	unlinks, renames := 0, 0
+	for _, e := range res.trace {
+		if !e.Done {
+			continue
+		}
+		p := e.path()
+		if p == progPath {
+			if e.Name == "write" {
+				if s := e.strings(); len(s) > 0 {
+					f := strings.Fields(s[0])
+					if len(f) >= 2 && f[0] == "C" {
+						curOp, _ = strconv.Atoi(f[1])
+					}
+				}
+			}
+			continue
+		}
+		if !strings.HasPrefix(p, wd) {
+			continue
+		}
+		if e.mutating() {
+			recent = append(recent, fmt.Sprintf("%s(%s) = %s", e.Name, strings.TrimPrefix(shorten(e.Args, 120), wd), e.Ret))
+			if len(recent) > 14 {
+				recent = recent[1:]
+			}
+		}
+		ok := !strings.HasPrefix(e.Ret, "-")
+		bn := filepath.Base(p)
+		switch e.Name {
+		case "write":
+			if !ok {
+				continue
+			}
+			if _, isLog := logNum(bn); isLog {
+				for _, h := range added[curOp] {
+					fileHas[bn] = true
+					if h > fileMax[bn] {
+						fileMax[bn] = h
+					}
+				}
+			}
+			if bn == wmTmpName {
+				if s := e.strings(); len(s) > 0 {
+					tmpContent = append(tmpContent, s[0]...)
+				}
+				tmpSynced = false
+			}
+		case "openat":
+			if bn == wmTmpName && ok && strings.Contains(e.Args, "O_TRUNC") {
+				tmpContent = nil
+				tmpSynced = false
+			}
+		case "fsync", "fdatasync":
+			if !ok {
+				continue
+			}
+			if bn == wmTmpName {
+				tmpSynced = true
+			}
+			if p == wd && haveRenamed {
+				dirSyncedAfterRename = true
+				durableW, haveDurable = renamedW, true
+			}
+		case "renameat", "renameat2", "rename":
+			s := e.strings()
+			if !ok || len(s) < 2 || filepath.Base(s[0]) != wmTmpName || filepath.Base(s[1]) != wmName {
+				continue
+			}
+			renames++
+			const hdr = "juno-wal-prune-watermark-v1"
+			if len(tmpContent) != len(hdr)+8 || string(tmpContent[:len(hdr)]) != hdr {
+				fail("watermark-content-malformed-at-rename", "rename tmp->prune-watermark", fmt.Sprintf("tmp content %q", tmpContent))
+				continue
+			}
+			if !tmpSynced {
+				fail("watermark-renamed-before-tmp-fsync", "rename tmp->prune-watermark", "the temporary file had not been fsynced when it was renamed over the watermark")
+			}
+			w := uint64(0)
+			for _, c := range tmpContent[len(hdr):] {
+				w = w<<8 | uint64(c)
+			}
+			if haveRenamed && w < renamedW {
+				fail("watermark-went-backwards", "rename tmp->prune-watermark", fmt.Sprintf("%d after %d", w, renamedW))
+			}
+			renamedW, haveRenamed, dirSyncedAfterRename = w, true, false
+		case "unlinkat", "unlink":
+			s := e.strings()
+			if len(s) == 0 {
+				continue
+			}
+			ub := filepath.Base(s[0])
+			if _, isLog := logNum(ub); !isLog {
+				continue
+			}
+			unlinks++
+			if !fileHas[ub] {
+				continue // no entry was ever indexed in this file
+			}
+			switch {
+			case !haveDurable && !haveRenamed:
+				fail("unlink-without-any-watermark", "unlink "+ub, fmt.Sprintf("file holds entries up to height %d and no watermark was ever published", fileMax[ub]))
+			case haveRenamed && !dirSyncedAfterRename && (!haveDurable || durableW < fileMax[ub]):
+				fail("unlink-before-watermark-dir-fsync", "unlink "+ub, fmt.Sprintf("watermark %d renamed but the directory was not fsynced before the unlink; file holds heights up to %d", renamedW, fileMax[ub]))
+			case durableW < fileMax[ub]:
+				fail("unlink-of-file-above-durable-watermark", "unlink "+ub, fmt.Sprintf("durable watermark %d, file holds entries up to height %d", durableW, fileMax[ub]))
+			}
+		}
+	}
+	r.Eval(1)
+	r.Count("order_check_unlinks_seen", unlinks)
+	r.Count("order_check_watermark_renames_seen", renames)
+	r.Count("order_check_traces", 1)
+}
+
+func shorten(s string, n int) string {
+	if len(s) > n {
+		return s[:n] + "..."
+	}
+	return s
+}
+
+// ---------------------------------------------------------------- kill runs
+
+type killTarget struct {
+	script  int
+	syscall string
+	when    int
+	refPos  int
+	refDesc string
+}
+
+// mutatingSeq lists the state-changing WAL syscalls of a trace in order.
+func mutatingSeq(res *childResult) []sysEv {
+	wd := walDirOf(res.base)
+	var out []sysEv
+	for _, e := range res.trace {
+		if e.mutating() && strings.HasPrefix(e.path(), wd) {
+			out = append(out, e)
+		}
+	}
+	return out
+}
+
+// chooseKillTargets: every syscall in the windows around watermark publication,
+// rotation, file removal, tail repair and log creation, plus a seeded sample of
+// the ordinary append/sync pairs.
+func chooseKillTargets(rng *rand.Rand, si int, seq []sysEv, wd string, sample int) []killTarget {
+	interesting := map[int]bool{}
+	for i, e := range seq {
+		bn := filepath.Base(e.path())
+		special := e.Name != "write" && e.Name != "fdatasync"
+		if bn == wmTmpName || bn == wmName {
+			special = true
+		}
+		if special {
+			for d := -3; d <= 3; d++ {
+				if i+d >= 0 && i+d < len(seq) {
+					interesting[i+d] = true
+				}
+			}
+		}
+	}
+	for k := 0; k < sample && len(seq) > 0; k++ {
+		interesting[rng.IntN(len(seq))] = true
+	}
+	idxs := make([]int, 0, len(interesting))
+	for i := range interesting {
+		idxs = append(idxs, i)
+	}
+	sort.Ints(idxs)
+	var out []killTarget
+	for _, i := range idxs {
+		e := seq[i]
+		n := 0
+		for j := 0; j <= i; j++ {
+			if seq[j].Name == e.Name && seq[j].Pid == e.Pid {
+				n++
+			}
+		}
+		out = append(out, killTarget{script: si, syscall: e.Name, when: n, refPos: i,
+			refDesc: fmt.Sprintf("%s %s", e.Name, strings.TrimPrefix(e.path(), wd+"/"))})
+	}
+	return out
+}
+
+type killWitness struct {
+	Profile  string   `json:"profile"`
+	Inject   string   `json:"inject"`
+	Position string   `json:"position"`
+	InFlight string   `json:"in_flight_call"`
+	Problem  *problem `json:"problem"`
+	Script   string   `json:"script"`
+	Tail     []string `json:"last_wal_syscalls"`
+}
+
+// replayProgress applies the child's returned calls to a model; returns the model
+// after every returned call and, if a call was in flight, its index.
+func replayProgress(sc script, prog []progLine) (m *model, inflight int, errs []progLine) {
+	m = &model{}
+	inflight = -2
+	open := map[int]bool{}
+	for _, p := range prog {
+		switch p.Kind {
+		case "C":
+			open[p.I] = true
+			inflight = p.I
+		case "R":
+			delete(open, p.I)
+			inflight = -2
+			if p.Status != "ok" {
+				errs = append(errs, p)
+				continue
+			}
+			if p.I >= 0 {
+				m.apply(sc.Ops[p.I])
+			}
+		}
+	}
+	return m, inflight, errs
+}
+
+func runKill(r *lib.Run, caseIdx int, sc script, kt killTarget, seen *sync.Map) {
+	inj := fmt.Sprintf("%s:signal=KILL:when=%d", kt.syscall, kt.when)
+	res, err := runChild(sc.Ops, []string{inj}, false, false, false)
+	if res != nil {
+		defer os.RemoveAll(res.dir)
+	}
+	if err != nil {
+		r.Inconclusive("strace-run-failed")
+		r.Note("kill run failed: " + err.Error())
+		return
+	}
+	if res.timedOut {
+		r.Inconclusive("strace-child-watchdog")
+		return
+	}
+	wd := walDirOf(res.base)
+	seq := mutatingSeq(res)
+	pos := 0
+	var victim *sysEv
+	var tail []string
+	for i := range seq {
+		if seq[i].Done {
+			pos++
+		} else if victim == nil {
+			victim = &seq[i]
+		}
+		tail = append(tail, fmt.Sprintf("%s(%s) = %s", seq[i].Name, strings.TrimPrefix(shorten(seq[i].Args, 100), wd), seq[i].Ret))
+	}
+	if len(tail) > 12 {
+		tail = tail[len(tail)-12:]
+	}
+	if res.ended || victim == nil {
+		r.Count("kill_runs_where_no_thread_reached_N(child finished)", 1)
+	}
+	m, inflight, errs := replayProgress(sc, res.progress)
+	if len(errs) > 0 {
+		r.Violation("kill:call-fails-without-fault:"+errClass(fmt.Errorf("%s", errs[0].Msg)), caseIdx,
+			fmt.Sprintf("call %d returned an error although nothing was injected: %s", errs[0].I, errs[0].Msg), nil)
+		return
+	}
+	before := m.clone()
+	before.dropPending()
+	var after *model
+	desc := "none"
+	if inflight >= 0 {
+		o := sc.Ops[inflight]
+		desc = fmt.Sprintf("#%d %s", inflight, o)
+		if o.Kind == opFlush || o.Kind == opClose {
+			after = m.clone()
+			after.commit()
+		}
+	} else if inflight == -1 {
+		desc = "initial open"
+	}
+	which, p := checkDir(res.base, altsOf(before, after), "kill", "")
+	r.Eval(1)
+	r.Count("kill_images_checked", 1)
+	vd := "end"
+	if victim != nil {
+		vd = victim.Name + " " + strings.TrimPrefix(victim.path(), wd+"/")
+		r.Count("killed_before:"+victim.Name+":"+classifyPath(victim.path()), 1)
+	}
+	position := fmt.Sprintf("script%d after %d WAL syscalls, before %s", kt.script, pos, vd)
+	if _, dup := seen.LoadOrStore(position, true); !dup {
+		r.Case("kill:" + position)
+		r.Count("distinct_kill_positions", 1)
+	}
+	if which >= 0 && after != nil {
+		r.Count("kill_outcome_with_batch_in_flight:"+[]string{"batch-absent", "batch-present"}[which], 1)
+	}
+	if p != nil {
+		im, _ := readImage(wd)
+		p.Files = im.describe()
+		r.Violation(p.Class, caseIdx, fmt.Sprintf("%s script, SIGKILL %s, in-flight call %s: %s", sc.Profile, position, desc, p.Brief),
+			killWitness{Profile: sc.Profile, Inject: inj, Position: position, InFlight: desc, Problem: p, Script: scriptString(sc.Ops, 80), Tail: tail})
+	}
+}
+
+func classifyPath(p string) string {
+	bn := filepath.Base(p)
+	if _, ok := logNum(bn); ok {
+		return "log"
+	}
+	if bn == wmName || bn == wmTmpName {
+		return bn
+	}
+	return "dir"
+}
+
+// ---------------------------------------------------------------- fault runs
+
+type faultWitness struct {
+	Profile string   `json:"profile"`
+	Inject  []string `json:"inject"`
+	Call    string   `json:"call"`
+	Error   string   `json:"error"`
+	Problem *problem `json:"problem"`
+	Script  string   `json:"script"`
+}
+
+// runFault: errors injected into WAL syscalls. The parent follows the child's
+// returns with a *set* of model states: a call that reported failure either left
+// its batch pending (nothing durable) or committed it as a whole; the running
+// store's view (digest logged after every call) selects among them. Oracle:
+// the view always matches a state; the directory copied at every failed call
+// and the final directory reopen (without faults) to a state of the set.
+func runFault(r *lib.Run, caseIdx int, sc script, inject []string) {
+	res, err := runChild(sc.Ops, inject, false, true, true)
+	if res != nil {
+		defer os.RemoveAll(res.dir)
+	}
+	if err != nil {
+		r.Inconclusive("strace-run-failed")
+		r.Note("fault run failed: " + err.Error())
+		return
+	}
+	if res.timedOut {
+		r.Inconclusive("fault-run-watchdog(hang?)")
+		r.Note(fmt.Sprintf("fault run %v on %s script did not finish within the watchdog", inject, sc.Profile))
+		return
+	}
+	injected := 0
+	for _, e := range res.trace {
+		if e.Injected {
+			injected++
+			r.Count("faults_injected:"+e.Name+":"+classifyPath(e.path()), 1)
+		}
+	}
+	if injected == 0 {
+		r.Count("fault_runs_where_nothing_was_hit", 1)
+	}
+	report := func(class, call, msg string, p *problem) {
+		brief := fmt.Sprintf("%s script under %v, call %s", sc.Profile, inject, call)
+		if msg != "" {
+			brief += " (returned: " + shorten(msg, 160) + ")"
+		}
+		if p != nil {
+			class = p.Class
+			brief += ": " + p.Brief
+		}
+		r.Violation(class, caseIdx, brief,
+			faultWitness{Profile: sc.Profile, Inject: inject, Call: call, Error: msg, Problem: p, Script: scriptString(sc.Ops, 80)})
+	}
+	states := []*model{{}}
+	storeOpen := false
+	dedup := func(in []*model) []*model {
+		seen := map[string]bool{}
+		var out []*model
+		for _, s := range in {
+			k := viewDigest(s.view()) + fmt.Sprint(len(s.pending), s.w)
+			if !seen[k] {
+				seen[k] = true
+				out = append(out, s)
+			}
+		}
+		return out
+	}
+	failedCalls := 0
+	for _, p := range res.progress {
+		if p.Kind != "R" {
+			continue
+		}
+		var o op
+		if p.I >= 0 {
+			o = sc.Ops[p.I]
+		} else {
+			o = op{Kind: opOpen}
+		}
+		call := fmt.Sprintf("#%d %s", p.I, o)
+		okRet := p.Status == "ok"
+		var next []*model
+		switch o.Kind {
+		case opSet, opDel:
+			if !okRet {
+				report("fault:buffering-call-fails", call, p.Msg, nil)
+				return
+			}
+			for _, s := range states {
+				s.apply(o)
+			}
+			next = states
+		case opFlush, opClose:
+			for _, s := range states {
+				if !okRet {
+					next = append(next, s.clone()) // nothing of the batch durable, batch still buffered
+				}
+				c := s.clone()
+				c.commit()
+				next = append(next, c)
+			}
+			if o.Kind == opClose {
+				storeOpen = false
+				for _, s := range next {
+					s.dropPending()
+				}
+			}
+		case opOpen:
+			next = states
+			storeOpen = okRet
+			if !okRet {
+				r.Count("fault_runs_open_failed_while_faults_armed", 1)
+			}
+		}
+		states = dedup(next)
+		if len(states) > 64 {
+			r.Inconclusive("fault-state-set-too-large")
+			return
+		}
+		// the running store's view selects the states that are still possible
+		if storeOpen && p.View != "-" {
+			var keep []*model
+			for _, s := range states {
+				if viewDigest(s.view()) == p.View {
+					keep = append(keep, s)
+				}
+			}
+			r.Eval(1)
+			if len(keep) == 0 {
+				report("fault:live-view-illegal-after-"+o.Kind+"-"+p.Status, call, p.Msg,
+					&problem{Class: "fault:live-view-illegal-after-" + o.Kind + "-" + p.Status,
+						Brief: fmt.Sprintf("running store shows view %s; legal: %v", p.View, func() []string {
+							var v []string
+							for _, s := range states {
+								v = append(v, viewDigest(s.view()))
+							}
+							return v
+						}())})
+				return
+			}
+			states = keep
+		}
+		if !okRet {
+			failedCalls++
+			r.Count("failed_calls:"+o.Kind, 1)
+			snap := filepath.Join(res.dir, "snaps", fmt.Sprintf("op%d", p.I))
+			if _, err := os.Stat(snap); err == nil {
+				var alts []alt
+				for _, s := range states {
+					alts = append(alts, alt{fmt.Sprintf("state(pending=%d)", len(s.pending)), s.view(), s.w})
+				}
+				_, pr := checkDir(snap, alts, "fault-snapshot", "")
+				r.Eval(1)
+				r.Count("fault_snapshots_checked", 1)
+				if pr != nil {
+					im, _ := readImage(walDirOf(snap))
+					pr.Files = im.describe()
+					report("", call, p.Msg, pr)
+					return
+				}
+			}
+		}
+	}
+	if !res.ended {
+		r.Count("fault_runs_child_died", 1)
+	}
+	for _, s := range states {
+		s.dropPending()
+	}
+	states = dedup(states)
+	var alts []alt
+	for i, s := range states {
+		alts = append(alts, alt{fmt.Sprintf("state%d", i), s.view(), s.w})
+	}
+	_, pr := checkDir(res.base, alts, "fault-final", "")
+	r.Eval(1)
+	r.Count("fault_runs_checked", 1)
+	if failedCalls > 0 {
+		r.Case(fmt.Sprintf("fault:%s:%v:failed%d:final%s", sc.Profile, inject, failedCalls, viewDigest(states[0].view())))
+	}
+	if pr != nil {
+		im, _ := readImage(walDirOf(res.base))
+		pr.Files = im.describe()
+		report("", "final reopen", "", pr)
+	}
+}
+
+// ---------------------------------------------------------------- driver
+
+func straceScripts(r *lib.Run) []script {
+	var out []script
+	n := r.N(6, 40)
+	for i := 0; i < n; i++ {
+		rng := lib.Rng("C14/strace-script", uint64(i))
+		switch i % 6 {
+		case 0:
+			out = append(out, genDriver(rng, 258+rng.IntN(10), true))
+		case 1:
+			out = append(out, genDriver(rng, 515+rng.IntN(10), true))
+		case 2:
+			out = append(out, genMix(rng))
+		case 3:
+			out = append(out, genDriver(rng, 3+rng.IntN(10), false))
+		case 4:
+			sc := genDriver(rng, 258+rng.IntN(6), true)
+			// a reopen right after the cleanup: recovery with watermark + rotated files
+			sc.Ops = append(sc.Ops, op{Kind: opOpen}, op{Kind: opSet, E: &entrySpec{Kind: eStart, H: 100000, Tag: 999999}}, op{Kind: opClose})
+			out = append(out, sc)
+		default:
+			out = append(out, genBig(rng))
+		}
+	}
+	return out
+}
+
+func straceLayer(r *lib.Run, t *testing.T) {
+	if _, err := exec.LookPath("strace"); err != nil {
+		r.Note("strace not found: syscall-boundary kills, fault injection and the ordering checker were skipped")
+		r.Inconclusive("strace-missing")
+		return
+	}
+	scripts := straceScripts(r)
+	refs := make([]*childResult, len(scripts))
+	var targets []killTarget
+	var mu sync.Mutex
+	perScriptSample := 8
+	if !r.Quick() {
+		perScriptSample = 60
+	}
+	// (a) reference runs: ordering check + kill target selection
+	parallel(len(scripts), func(i int) {
+		res, err := runChild(scripts[i].Ops, nil, true, false, false)
+		if err != nil || res.timedOut || !res.ended {
+			r.Inconclusive("strace-reference-run-failed")
+			if err != nil {
+				r.Note("reference run: " + err.Error())
+			}
+			if res != nil {
+				os.RemoveAll(res.dir)
+			}
+			return
+		}
+		refs[i] = res
+		checkOrdering(r, 200000+i, scripts[i], res)
+		// the un-injected run must of course end in the model's final state
+		m, _, errs := replayProgress(scripts[i], res.progress)
+		if len(errs) > 0 {
+			r.Violation("api:call-fails-without-fault:"+errClass(fmt.Errorf("%s", errs[0].Msg)), 200000+i, errs[0].Msg, nil)
+		} else if _, p := checkDir(res.base, altsOf(m, nil), "traced-run-final", ""); p != nil {
+			r.Violation(p.Class, 200000+i, p.Brief, p)
+		}
+		seq := mutatingSeq(res)
+		r.Count("reference_wal_syscalls", len(seq))
+		kt := chooseKillTargets(lib.Rng("C14/kill-targets", uint64(i)), i, seq, walDirOf(res.base), perScriptSample)
+		mu.Lock()
+		targets = append(targets, kt...)
+		mu.Unlock()
+		os.RemoveAll(res.dir)
+	})
+	sort.Slice(targets, func(a, b int) bool {
+		if targets[a].script != targets[b].script {
+			return targets[a].script < targets[b].script
+		}
+		return targets[a].refPos < targets[b].refPos
+	})
+	maxKills := r.N(170, 6000)
+	if len(targets) > maxKills {
+		// keep a seeded subset, spread over scripts
+		rng := lib.Rng("C14/kill-subset", 0)
+		rng.Shuffle(len(targets), func(a, b int) { targets[a], targets[b] = targets[b], targets[a] })
+		targets = targets[:maxKills]
+	}
+	r.Count("kill_targets", len(targets))
+	// (b) kill runs
+	var seen sync.Map
+	r.Cases(len(targets), 0, func(k int) {
+		runKill(r, k, scripts[targets[k].script], targets[k], &seen)
+	})
+	// (c) fault runs
+	type faultJob struct {
+		script int
+		inject []string
+	}
+	var fjobs []faultJob
+	for i := range scripts {
+		rng := lib.Rng("C14/faults", uint64(i))
+		specs := [][]string{
+			{fmt.Sprintf("fdatasync:error=EIO:when=%d", 1+rng.IntN(6))},
+			{fmt.Sprintf("fdatasync:error=EIO:when=%d", 2+rng.IntN(200))},
+			{fmt.Sprintf("write:error=ENOSPC:when=%d", 1+rng.IntN(8))},
+			{fmt.Sprintf("write:error=ENOSPC:when=%d", 2+rng.IntN(250))},
+			{fmt.Sprintf("write:error=ENOSPC:when=%d+", 3+rng.IntN(30))},
+			{fmt.Sprintf("fdatasync:error=EIO:when=%d+%d", 2+rng.IntN(5), 3+rng.IntN(9))},
+			{fmt.Sprintf("fsync:error=EIO:when=%d", 1+rng.IntN(4))},
+			{fmt.Sprintf("fdatasync:error=EIO:when=%d", 1+rng.IntN(20)), "ftruncate:error=EIO:when=1"},
+			{fmt.Sprintf("fdatasync:error=EIO:when=%d", 1+rng.IntN(20)), "fsync:error=EIO:when=1+"},
+			{fmt.Sprintf("openat:error=EIO:when=%d", 3+rng.IntN(12))},
+			{"renameat:error=EIO:when=1"},
+			{"unlinkat:error=EACCES:when=1"},
+		}
+		if r.Quick() {
+			rng.Shuffle(len(specs), func(a, b int) { specs[a], specs[b] = specs[b], specs[a] })
+			specs = specs[:8]
+		}
+		for _, s := range specs {
+			fjobs = append(fjobs, faultJob{i, s})
+		}
+	}
+	r.Count("fault_runs", len(fjobs))
+	r.Cases(len(fjobs), 0, func(k int) {
+		runFault(r, k, scripts[fjobs[k].script], fjobs[k].inject)
+	})
+}
